@@ -82,13 +82,18 @@ NFR = {6: 2, 8: 7}        # frames a level contributes (default 1)
 
 def chain_source(prog, exc):
     lines = ["class CustomError(Exception):", "    pass", "", "class ScriptError(Exception):", "    pass", "ScriptError.__module__ = '__main__'", "",
-             "class Outer:", "    class InnerError(Exception):", "        pass", "", "def raiser():"]
+             "class Outer:", "    class InnerError(Exception):", "        pass", "",
+             "def make_local_error():", "    class LocalError(Exception):", "        pass", "    return LocalError", "", "def raiser():"]
     lines.append({1: "    raise ValueError('bad value: 42')", 2: "    raise RuntimeError()", 3: "    raise CustomError('custom failed')",
                   4: "    raise ValueError('line one\\nline two')",
                   5: "    raise ScriptError('defined in the script being run')",     # a class of __main__ is printed unqualified
                   6: "    raise Outer.InnerError('nested class')",
                   7: "    raise KeyError('missing key')",
-                  8: "    raise FileNotFoundError(2, 'No such file or directory', 'x.txt')"}[exc])
+                  8: "    raise FileNotFoundError(2, 'No such file or directory', 'x.txt')",
+                  9: "    raise KeyboardInterrupt()",                                   # BaseExceptions that are not Exceptions
+                  10: "    raise SystemExit(3)",
+                  11: "    raise make_local_error()('class defined inside a function')",   # qualified name with <locals>
+                  12: "    raise GeneratorExit()"}[exc])
     nxt = "raiser"
     for idx in range(len(prog), 0, -1):
         k = prog[idx - 1]
@@ -142,7 +147,7 @@ def run_chain(row, tmpdir, counter, reuse=False):
     try:
         mod.entry()
         return [("chain", "did-not-raise", "")]
-    except Exception:
+    except BaseException:
         et, ev, tb = sys.exc_info()
         try:
             ei = ExceptionInfo.from_exc_info(et, ev, tb)
